@@ -378,6 +378,10 @@ func getInbox(t vocab.Type) (u *url.URL, err error) {
 		return
 	}
 	inbox := ib.GetActivityStreamsInbox()
+	if inbox == nil {
+		err = fmt.Errorf("actor type %T has no inbox set", t)
+		return
+	}
 	return ToId(inbox)
 }
 
